@@ -287,8 +287,15 @@ func runCRDTArm(c *core.Ctx) {
 					continue
 				}
 				n++
+				// `if !flag { return }` puts the arming on the false side of the negated flag
+				pos := cd
+				want := onTrue
+				if u, isNot := an.Unparen(cd).(*ast.UnaryExpr); isNot && u.Op == token.NOT {
+					pos, want = u.X, onFalse
+				}
+				cd = pos
 				src := an.ResolveLocal(info, commit.Body(), cd)
-				if !(onTrue && an.SelectedField(info, src) == a.hasOld) {
+				if !(want && an.SelectedField(info, src) == a.hasOld) {
 					bad = "the arming also depends on `" + an.ExprString(cd) + "`"
 					// a copy of the flag that is assigned again is not the flag
 					if id, isID := an.Unparen(cd).(*ast.Ident); isID && an.SingleDef(info, commit.Body(), info.ObjectOf(id)) == nil {
@@ -346,26 +353,10 @@ func runCRDTArm(c *core.Ctx) {
 					if f == nil || l == nil || f == a.count {
 						continue
 					}
-					// the local is a copy of the field taken before the state was read, and never assigned otherwise
-					copies, others := 0, 0
-					ast.Inspect(bcFn.Body(), func(x ast.Node) bool {
-						as, isAs := x.(*ast.AssignStmt)
-						if !isAs {
-							return true
-						}
-						for i, lh := range as.Lhs {
-							if an.ObjOf(info, lh) != l {
-								continue
-							}
-							if len(as.Rhs) == len(as.Lhs) && an.SelectedField(info, as.Rhs[i]) == f && stablePos.IsValid() && as.Pos() < stablePos {
-								copies++
-							} else {
-								others++
-							}
-						}
-						return true
-					})
-					if copies != 1 || others != 0 {
+					// the local is a copy of the field taken before the state was read, and never assigned otherwise (read
+					// through plain copies and the named results of a helper literal)
+					src := resolveThroughLiteral(info, bcFn.Body(), pair[1])
+					if !(an.SelectedField(info, src) == f && stablePos.IsValid() && src.Pos() < stablePos) {
 						why = "the local compared with the epoch is not a single copy of it taken before the stable state is read"
 						continue
 					}
